@@ -215,3 +215,27 @@ def check_cfg(ctx, fx, cfg):
             envs = [t for _, t in b.normal_calls() if is_env(t)]
             ok = len(envs) >= 2 and all(t["gargs"][:2] == ["A", want] for t in envs)
             ctx.require(ok, "R07.4", "terminal:%s@%s" % (term.split("::", 2)[-1], cfg), "the terminal must run the loop with the builder's own strategy (%s): %s" % (want, [t["gargs"][:2] for t in envs]), fn=term, site=f["loc"])
+
+
+def check_restart_aborts_timers(ctx, fx, cfg, RULE):
+    """every restarting strategy aborts the timers of the incarnation it replaces between its stopped() and the next
+    started() (shared with C10: a timer registered by a previous incarnation must not fire into the next one, nor double the
+    period of the intervals the new incarnation registers again)"""
+    ab = timers.aborters(ctx, fx)
+    A = loops.lifecycle_alphabet()
+    A.calls = [(l, p) for (l, p) in A.calls if l != "abort_tasks"] + [("abortall", lambda t: t.get("callee") in ab)]
+    strategies = loops.find_refresh(fx)
+    ctx.floor(RULE, "restart strategies (%s)" % cfg, len(strategies), 3)
+    for strat, f, co in strategies:
+        kind = strat_kind(strat)
+        inst = "%s@%s" % (strat.split("::")[-1], cfg)
+        if co is None or kind == "none":
+            continue
+        b = ctx.body(fx, co)
+        n = nfa.build(b, A, fx, depth=2)
+        v2, p2 = nfa.check(n, AbortBetween())
+        ctx.count_nfa(n.stats(), p2)
+        for v in v2:
+            ctx.viol(RULE, inst + ":timers", v["msg"], fn=co["def"], site=co["loc"], trace=v["trace"])
+        if not v2:
+            ctx.ok(RULE, inst + ":timers", co["loc"], None)
